@@ -523,6 +523,47 @@ theorem onAck_at_most_once (env : Env) (hash : HashOk env) (c : Chain) (ms : Lis
   have := hgrow ms c
   split at hb <;> omega
 
+/-! ### client updates take effect -/
+/-- **update_takes_effect_all_kinds**: after an accepted `MsgUpdateClient` the client table holds the UPDATED client state,
+for every client kind: a light client gains the consensus root at the header height (and its latest height moves up), a
+TSS client's address is replaced by the one the update names — the keeper stores the new client state whether or not the
+update yields a consensus state. Later verifications read that state. -/
+theorem update_takes_effect_all_kinds (env : Env) (c : Chain) (now : UInt64) (chain : Bytes) (h : Height)
+    (root signer : Bytes) (ok : Bool)
+    (hok : (deliver env c now (.updateClient chain h root signer ok)).2 = .ok) :
+    ∃ cl, c.clients.get chain = some cl ∧
+      ((cl.kind = .tss ∧ signer = cl.tssAddr ∧
+          (deliver env c now (.updateClient chain h root signer ok)).1.clients.get chain = some { cl with tssAddr := root }) ∨
+       (cl.kind ≠ .tss ∧
+          (deliver env c now (.updateClient chain h root signer ok)).1.clients.get chain =
+            some { cl with latest := maxHeight cl.latest h, cons := cl.cons.set h root, processed := cl.processed.set h now })) := by
+  have hh := deliver_ok_handle hok
+  simp only [handle] at hh
+  obtain ⟨cl, hcl, _, _, heff⟩ := updateClient_effect hh
+  exact ⟨cl, hcl, heff⟩
+
+/-- after a TSS key rotation only the NEW address gets an acknowledgement through: an ack accepted in the state right
+after the accepted update is signed by the address the update named (the retired address is refused unless it is the
+same), and the commitment stays for everybody else. -/
+theorem ack_after_rotation_needs_new_signer (env : Env) (c : Chain) (now now2 : UInt64) (chain : Bytes) (h : Height)
+    (newAddr signer : Bytes) (ok : Bool) (cl : Client) (hcl : c.clients.get chain = some cl) (hk : cl.kind = .tss)
+    (hupd : (deliver env c now (.updateClient chain h newAddr signer ok)).2 = .ok)
+    (pk ak pf : Bytes) (h2 : Height) (s : Bytes) (o : EvmOut) (hdst : (env.decodePacket pk).1.dst = chain)
+    (hack : (deliver env (deliver env c now (.updateClient chain h newAddr signer ok)).1 now2
+              (.acknowledgement pk ak pf h2 s o)).2 = .ok) :
+    s = newAddr := by
+  obtain ⟨cl', hcl', heff⟩ := update_takes_effect_all_kinds env c now chain h newAddr signer ok hupd
+  rw [hcl] at hcl'; injection hcl' with hcl'; subst hcl'
+  rcases heff with ⟨_, _, hnew⟩ | ⟨hne, _⟩
+  · obtain ⟨cl2, hcl2, hv⟩ := (handle_ack_effect (deliver_ok_handle hack)).verified
+    rw [hdst, hnew] at hcl2
+    injection hcl2 with hcl2
+    subst hcl2
+    unfold Client.verify at hv
+    simp only [hk, Client.effProof, ↓reduceIte] at hv
+    simpa using hv
+  · exact absurd hk hne
+
 /-! ### the self-client hazard (closed witness on the model) -/
 section Witness
 def wA : Packet := ⟨[2], [1], 1, [], [9], [], [], 0⟩      -- sent by chain [2] to chain [1]
